@@ -131,25 +131,25 @@ package p9p
 //@ let D1 = fcall.Message.(MessageTwrite).Data
 //@ let S0 = (4 + old(wireSize(*fcall)))
 //@ requires ch != nil && ch.codec != nil && fcall != nil && 0 <= ch.msize && ch.msize < 2147483648
-//@ requires typeis(fcall.Message, MessageTwrite) ==> len(fcall.Message.(MessageTwrite).Data) < 4294967296 - 23
-//@ ensures frame: fcall.Type == old(fcall.Type) && fcall.Tag == old(fcall.Tag) && ch.msize == old(ch.msize) && unchanged("E:uint8")
-//@ ensures fits: err == nil && !typeis(M0, MessageTread) ==> 4 + wireSize(*fcall) <= ch.msize
-//@ ensures twrite_prefix: typeis(M0, MessageTwrite) && err == nil ==> typeis(fcall.Message, MessageTwrite) && base(D1) == base(D0) && off(D1) == off(D0) && len(D1) <= len(D0) && fcall.Message.(MessageTwrite).Fid == old(fcall.Message.(MessageTwrite).Fid) && fcall.Message.(MessageTwrite).Offset == old(fcall.Message.(MessageTwrite).Offset)
-//@ ensures twrite_never_fails: typeis(M0, MessageTwrite) && ch.msize >= 23 ==> err == nil
-//@ ensures twrite_exact: typeis(M0, MessageTwrite) && S0 > ch.msize && err == nil ==> 4 + wireSize(*fcall) == ch.msize
-//@ ensures twrite_whole: typeis(M0, MessageTwrite) && S0 <= ch.msize ==> err == nil && fcall.Message == M0
-//@ ensures twrite_err: typeis(M0, MessageTwrite) && err != nil ==> fcall.Message == M0 && typeis(err, overflowErr) && err.(overflowErr).size == S0 - ch.msize
-//@ ensures tread: typeis(M0, MessageTread) ==> err == nil && typeis(fcall.Message, MessageTread) && fcall.Message.(MessageTread).Fid == old(fcall.Message.(MessageTread).Fid) && fcall.Message.(MessageTread).Offset == old(fcall.Message.(MessageTread).Offset)
-//@ ensures tread_clamp: typeis(M0, MessageTread) && ch.msize >= 11 ==> fcall.Message.(MessageTread).Count == min(old(fcall.Message.(MessageTread).Count), ch.msize - 11)
-//@ ensures other_ok: !typeis(M0, MessageTread) && !typeis(M0, MessageTwrite) ==> fcall.Message == M0 && (err == nil <==> S0 <= ch.msize)
-//@ ensures other_overflow: !typeis(M0, MessageTread) && !typeis(M0, MessageTwrite) && err != nil ==> typeis(err, overflowErr) && err.(overflowErr).size == S0 - ch.msize
+//@ let SMALL = (typeis(old(fcall.Message), MessageTwrite) ==> len(old(fcall.Message.(MessageTwrite).Data)) < 4294967296 - 23)
+//@ ensures frame: SMALL ==> (fcall.Type == old(fcall.Type) && fcall.Tag == old(fcall.Tag) && ch.msize == old(ch.msize) && unchanged("E:uint8"))
+//@ ensures fits: SMALL ==> (err == nil && !typeis(M0, MessageTread) ==> 4 + wireSize(*fcall) <= ch.msize)
+//@ ensures twrite_prefix: SMALL ==> (typeis(M0, MessageTwrite) && err == nil ==> typeis(fcall.Message, MessageTwrite) && base(D1) == base(D0) && off(D1) == off(D0) && len(D1) <= len(D0) && fcall.Message.(MessageTwrite).Fid == old(fcall.Message.(MessageTwrite).Fid) && fcall.Message.(MessageTwrite).Offset == old(fcall.Message.(MessageTwrite).Offset))
+//@ ensures twrite_never_fails: SMALL ==> (typeis(M0, MessageTwrite) && ch.msize >= 23 ==> err == nil)
+//@ ensures twrite_exact: SMALL ==> (typeis(M0, MessageTwrite) && S0 > ch.msize && err == nil ==> 4 + wireSize(*fcall) == ch.msize)
+//@ ensures twrite_whole: SMALL ==> (typeis(M0, MessageTwrite) && S0 <= ch.msize ==> err == nil && fcall.Message == M0)
+//@ ensures twrite_err: SMALL ==> (typeis(M0, MessageTwrite) && err != nil ==> fcall.Message == M0 && typeis(err, overflowErr) && err.(overflowErr).size == S0 - ch.msize)
+//@ ensures tread: SMALL ==> (typeis(M0, MessageTread) ==> err == nil && typeis(fcall.Message, MessageTread) && fcall.Message.(MessageTread).Fid == old(fcall.Message.(MessageTread).Fid) && fcall.Message.(MessageTread).Offset == old(fcall.Message.(MessageTread).Offset))
+//@ ensures tread_clamp: SMALL ==> (typeis(M0, MessageTread) && ch.msize >= 11 ==> fcall.Message.(MessageTread).Count == min(old(fcall.Message.(MessageTread).Count), ch.msize - 11))
+//@ ensures other_ok: SMALL ==> (!typeis(M0, MessageTread) && !typeis(M0, MessageTwrite) ==> fcall.Message == M0 && (err == nil <==> S0 <= ch.msize))
+//@ ensures other_overflow: SMALL ==> (!typeis(M0, MessageTread) && !typeis(M0, MessageTwrite) && err != nil ==> typeis(err, overflowErr) && err.(overflowErr).size == S0 - ch.msize)
 
 //@ func sendmsg
 //@ property C02
 //@ use bytes
-//@ requires wr != nil && len(p) + 4 < 4294967296
+//@ requires wr != nil
 //@ ensures frame: unchanged("E:uint8")
-//@ ensures one_frame: err == nil ==> out(wr) == bcat(old(out(wr)), bcat(le4(len(p) + 4), bytes(p)))
+//@ ensures one_frame: err == nil && len(p) + 4 < 4294967296 ==> out(wr) == bcat(old(out(wr)), bcat(le4(len(p) + 4), bytes(p)))
 //@ ensures failure_is_io: err != nil ==> iofailed() && tag(err) > 100000
 
 //@ func (*channel).WriteFcall
@@ -160,15 +160,15 @@ package p9p
 //@ let D0 = old(fcall.Message.(MessageTwrite).Data)
 //@ let D1 = fcall.Message.(MessageTwrite).Data
 //@ requires ctx != nil && ch != nil && ch.codec != nil && ch.conn != nil && ch.bwr != nil && fcall != nil && 0 <= ch.msize && ch.msize < 2147483648
-//@ requires typeis(fcall.Message, MessageTwrite) ==> len(fcall.Message.(MessageTwrite).Data) < 4294967296 - 23
-//@ ensures caller_buffer: preserved("E:uint8") && ch.msize == old(ch.msize) && fcall.Type == old(fcall.Type) && fcall.Tag == old(fcall.Tag)
-//@ ensures one_frame: err == nil ==> out(ch.bwr) == bcat(old(out(ch.bwr)), bcat(le4(4 + wireSize(*fcall)), encFcall(*fcall))) && (4 + wireSize(*fcall) <= ch.msize || (typeis(M0, MessageTread) && ch.msize < 23))
-//@ ensures nothing_on_error: err != nil && !iofailed() ==> out(ch.bwr) == old(out(ch.bwr))
-//@ ensures cancelled: old(cancelled(ctx)) ==> err != nil && out(ch.bwr) == old(out(ch.bwr))
-//@ ensures overflow: typeis(err, overflowErr) ==> err.(overflowErr).size == S0 - ch.msize && S0 > ch.msize && fcall.Message == M0 && !(typeis(M0, MessageTwrite) && ch.msize >= 23) && !typeis(M0, MessageTread)
-//@ ensures twrite: typeis(M0, MessageTwrite) && err == nil ==> typeis(fcall.Message, MessageTwrite) && base(D1) == base(D0) && off(D1) == off(D0) && len(D1) <= len(D0) && (S0 > ch.msize ==> 4 + wireSize(*fcall) == ch.msize) && (S0 <= ch.msize ==> fcall.Message == M0)
-//@ ensures tread: typeis(M0, MessageTread) && err == nil && ch.msize >= 11 ==> typeis(fcall.Message, MessageTread) && fcall.Message.(MessageTread).Count == min(old(fcall.Message.(MessageTread).Count), ch.msize - 11)
-//@ ensures other: !typeis(M0, MessageTread) && !typeis(M0, MessageTwrite) ==> fcall.Message == M0
+//@ let SMALL = (typeis(old(fcall.Message), MessageTwrite) ==> len(old(fcall.Message.(MessageTwrite).Data)) < 4294967296 - 23)
+//@ ensures caller_buffer: SMALL ==> (preserved("E:uint8") && ch.msize == old(ch.msize) && fcall.Type == old(fcall.Type) && fcall.Tag == old(fcall.Tag))
+//@ ensures one_frame: SMALL ==> (err == nil ==> out(ch.bwr) == bcat(old(out(ch.bwr)), bcat(le4(4 + wireSize(*fcall)), encFcall(*fcall))) && (4 + wireSize(*fcall) <= ch.msize || (typeis(M0, MessageTread) && ch.msize < 23)))
+//@ ensures nothing_on_error: SMALL ==> (err != nil && !iofailed() ==> out(ch.bwr) == old(out(ch.bwr)))
+//@ ensures cancelled: SMALL ==> (old(cancelled(ctx)) ==> err != nil && out(ch.bwr) == old(out(ch.bwr)))
+//@ ensures overflow: SMALL ==> (typeis(err, overflowErr) ==> err.(overflowErr).size == S0 - ch.msize && S0 > ch.msize && fcall.Message == M0 && !(typeis(M0, MessageTwrite) && ch.msize >= 23) && !typeis(M0, MessageTread))
+//@ ensures twrite: SMALL ==> (typeis(M0, MessageTwrite) && err == nil ==> typeis(fcall.Message, MessageTwrite) && base(D1) == base(D0) && off(D1) == off(D0) && len(D1) <= len(D0) && (S0 > ch.msize ==> 4 + wireSize(*fcall) == ch.msize) && (S0 <= ch.msize ==> fcall.Message == M0))
+//@ ensures tread: SMALL ==> (typeis(M0, MessageTread) && err == nil && ch.msize >= 11 ==> typeis(fcall.Message, MessageTread) && fcall.Message.(MessageTread).Count == min(old(fcall.Message.(MessageTread).Count), ch.msize - 11))
+//@ ensures other: SMALL ==> (!typeis(M0, MessageTread) && !typeis(M0, MessageTwrite) ==> fcall.Message == M0)
 
 //@ func readmsg
 //@ property C03 C12
@@ -817,6 +817,10 @@ package p9p
 //@ site completed#1: m.resp != nil && m.request == req && origin(m.resp) == req && m.resp.Tag == req.Tag && HEP == E + 1 && (hErr(req.Message, E) == nil ==> m.resp.Message == hMsg(req.Message, E)) && (hErr(req.Message, E) != nil ==> typeis(m.resp.Message, MessageRerror) && (typeis(hErr(req.Message, E), MessageRerror) ==> m.resp.Message.(MessageRerror) == hErr(req.Message, E).(MessageRerror)) && (!typeis(hErr(req.Message, E), MessageRerror) && !typeis(hErr(req.Message, E), *MessageRerror) ==> m.resp.Message.(MessageRerror).Ename == errtext(hErr(req.Message, E))))
 //@ ensures handled_once: HEP == E + 1
 
+//@ ghost stale bool zero
+//@ macro CHINV(C) = (C != nil && C.codec != nil && C.conn != nil && C.brd != nil && C.bwr != nil && 24 <= C.msize && C.msize < 2147483648 && len(C.rdbuf) == C.msize)
+//@ macro CONNOK = (c != nil && c.ch != nil && c.ctx != nil && c.closed != nil && (typeis(c.ch, *channel) ==> CHINV(c.ch.(*channel))) && (oncedone(&c.once) ==> closedch(c.closed)) && (!oncedone(&c.once) ==> !closedch(c.closed)))
+
 //@ macro INVT = (tags != nil && (forall u Tag :: {has(tags, u)} has(tags, u) ==> tags[u] != nil && allocated(tags[u]) && tags[u].request != nil && allocated(tags[u].request) && allocated(tags[u].cancel) && allocated(key(tags[u].ctx)) && tags[u].request.Tag == u && tags[u].ctx != nil && tags[u].cancel != nil && gk(cancels, tags[u].cancel) == key(tags[u].ctx) && dispatched(tags[u].request)))
 
 //@ func (reqMap).remove
@@ -828,7 +832,7 @@ package p9p
 
 //@ func (*conn).serve
 //@ property C06 C07 C11
-//@ requires c != nil && c.ch != nil && c.handler != nil && c.ctx != nil && c.closed != nil
+//@ requires CONNOK && c.handler != nil
 //@ chan requests: m != nil && !dispatched(m)
 //@ chan completed: m.resp != nil && m.request != nil && origin(m.resp) == m.request && dispatched(m.request) && m.resp.Tag == m.request.Tag
 //@ loop 1 invariant INVT && c.handler != nil && c.ctx != nil && c.closed != nil && c.ch != nil
@@ -841,3 +845,47 @@ package p9p
 //@ func (*conn).serve$1
 //@ inline
 //@ loop 1 invariant INVT
+
+//@ iface Channel.ReadFcall
+//@ dispatch
+//@ modifies alloc, E:uint8, E:string, E:p9p.Qid, p9p.Fcall.Type, p9p.Fcall.Tag, p9p.Fcall.Message, rem, $iofail
+//@ ensures forall q *Fcall :: {q.Tag} q != fcall ==> q.Type == old(q.Type) && q.Tag == old(q.Tag) && q.Message == old(q.Message)
+//@ iface Channel.WriteFcall
+//@ dispatch
+//@ modifies alloc, E:uint8, p9p.Fcall.Message, out, $iofail
+//@ ensures forall q *Fcall :: {q.Message} q != fcall ==> q.Message == old(q.Message)
+//@ iface Channel.MSize
+//@ dispatch
+//@ modifies nothing
+//@ iface Channel.SetMSize
+//@ dispatch
+//@ modifies alloc, E:uint8
+
+//@ func (*conn).CloseWithError
+//@ property C11
+//@ requires c != nil && c.closed != nil && (oncedone(&c.once) ==> closedch(c.closed)) && (!oncedone(&c.once) ==> !closedch(c.closed))
+//@ ensures closedch(c.closed) && oncedone(&c.once) && c.closed == old(c.closed) && c.ch == old(c.ch) && c.ctx == old(c.ctx) && c.handler == old(c.handler)
+
+//@ func (*conn).read
+//@ property C06 C11
+//@ requires CONNOK && requests != nil
+//@ chan requests: m != nil && !dispatched(m) && !stale(m)
+//@ loop 1 invariant CONNOK && requests != nil
+//@ ensures shuts_down: closedch(c.closed)
+
+//@ func (*conn).write
+//@ property C06 C11
+//@ requires CONNOK && responses != nil
+//@ chan responses: m != nil
+//@ loop 1 invariant CONNOK && responses != nil
+//@ ensures shuts_down: closedch(c.closed)
+
+//@ ghost stopcalls int
+//@ iface Handler.Stop
+//@ modifies alloc, stopcalls
+//@ ensures gk(stopcalls, 0) == old(gk(stopcalls, 0)) + 1
+
+//@ func ServeConn
+//@ property C10 C11
+//@ requires ctx != nil && cn != nil && handler != nil
+//@ ensures stop_exactly_once_or_refused: gk(stopcalls, 0) == old(gk(stopcalls, 0)) + 1 || (err != nil && gk(stopcalls, 0) == old(gk(stopcalls, 0)) && HEP == old(HEP) && spawned() == old(spawned()))
